@@ -3,8 +3,8 @@
    version through the switch tables goextract read from ParseVersion, so the
    statements below are about the constants, tables and regular expression
    that are in version.go on this run. *)
-From Apko Require Import Base.Prelude Base.Regex Spec.VersionSpec Model.Version Model.VersionFilter Model.SonameFixed Proofs.VersionProofs Proofs.ConstraintProofs
-  Proofs.VersionStringProofs Proofs.VersionFilterProofs Proofs.VersionPrefixProofs Proofs.SonameProofs Proofs.SonameFixedProofs
+From Apko Require Import Base.Prelude Base.Regex Spec.VersionSpec Model.Version Model.VersionFilter Model.VersionFilterPins Model.SonameFixed Proofs.VersionProofs Proofs.ConstraintProofs
+  Proofs.VersionStringProofs Proofs.VersionFilterProofs Proofs.VersionFilterPinsProofs Proofs.VersionPrefixProofs Proofs.SonameProofs Proofs.SonameFixedProofs
   Generated.Regexes Generated.VersionConsts Generated.C03Version Generated.C03Ladders.
 Open Scope Z_scope.
 
@@ -227,6 +227,41 @@ Example c03_filter_example :
   filter_one (resolve_constraint "a>=2") "1.0" ["a=2.5.0"; "b"] = true /\
   filter_one (resolve_constraint "a>=2") "1.0" ["a=1.5"; "b"] = false /\
   filter_one (resolve_constraint "a<1_hg") "1_git" [] = true.
+Proof. repeat split; vm_compute; reflexivity. Qed.
+
+(* filterPackages as the whole loop over a candidate list, with the disqualification map, allowPin / preferPin and the
+   installed package: it IS the version filter above (filter_one per candidate) followed by "not disqualified and not rejected
+   by the pin rule", in input order - for every constraint, pin setting and candidate list *)
+Theorem c03_filter_list_is_version_filter : forall c o cands,
+  filter_list c o cands = filter (eligible o) (filter (version_passes c) cands).
+Proof. exact filter_list_is. Qed.
+Print Assumptions c03_filter_list_is_version_filter.
+
+(* pins and dq only REMOVE: whoever passes is a candidate, passed by its version and is not disqualified; a candidate that is
+   neither disqualified nor pinned passes exactly by its version; with nothing disqualified or pinned the function is the
+   version filter; and the pin rule itself, readably *)
+Theorem c03_filter_pins_only_remove : forall c o cands,
+  (forall k, In k (filter_list c o cands) -> In k cands /\ version_passes c k = true /\ fc_dq k = false) /\
+  (forall k, In k cands -> fc_dq k = false -> fc_pinned k = ""%string ->
+     (In k (filter_list c o cands) <-> version_passes c k = true)) /\
+  ((forall k, In k cands -> fc_dq k = false /\ fc_pinned k = ""%string) ->
+     filter_list c o cands = filter (version_passes c) cands) /\
+  (forall k, eligible o k = true <->
+     fc_dq k = false /\
+     (fc_pinned k = ""%string \/ fc_pinned k = fp_allow o \/ fc_pinned k = fp_prefer o \/ fp_installed o = Some (fc_url k))).
+Proof.
+  intros c o cands. destruct (filter_list_only_removes c o cands) as (A & B & C).
+  exact (conj A (conj B (conj C (eligible_iff o)))).
+Qed.
+Print Assumptions c03_filter_pins_only_remove.
+
+Example c03_filter_pins_example :
+  let k v pin dq := {| fc_id := 0; fc_ver := v; fc_provs := []; fc_url := ("r/a-" ++ v ++ ".apk")%string; fc_pinned := pin; fc_dq := dq |} in
+  let cands := [k "1.0" "" false; k "2.0" "edge" false; k "3.0" "" true; k "2.5" "" false]%string in
+  List.map fc_ver (filter_list (resolve_constraint "a>=2") {| fp_allow := ""; fp_prefer := ""; fp_installed := None |} cands) = ["2.5"]%string /\
+  List.map fc_ver (filter_list (resolve_constraint "a>=2") {| fp_allow := "edge"; fp_prefer := ""; fp_installed := None |} cands) = ["2.0"; "2.5"]%string /\
+  List.map fc_ver (filter_list (resolve_constraint "a>=2") {| fp_allow := ""; fp_prefer := ""; fp_installed := Some "r/a-2.0.apk"%string |} cands) = ["2.0"; "2.5"]%string /\
+  List.map fc_ver (filter (version_passes (resolve_constraint "a>=2")) cands) = ["2.0"; "3.0"; "2.5"]%string.
 Proof. repeat split; vm_compute; reflexivity. Qed.
 
 (* shared-library names (finding C03-F2): the 0.V rescaling of so: versions without a release suffix is found by cutting at the
